@@ -122,11 +122,11 @@ var plans = map[string]*plan{
 	"C07": {
 		Level: "exploration",
 		Rule: "a raw client sends generated SUBSCRIBE packets (1..40 filters: valid / invalid ('#' not last, wildcard inside a level, empty) / '$'-prefixed / repeated, requested QoS 0..2 and 3/0x7f/0x80 built with the reference encoder) and UNSUBSCRIBE packets (1..40 filters held / not held / repeated) with topics.MaxQosAllowed in {0,1,2}; at quiescence (synctest) either the connection is closed or exactly one SUBACK/UNSUBACK with the request's id arrived, one code per filter in order: min(requested, max) for an accepted filter, 0x80 for a rejected one. " +
-			"Afterwards a second client publishes probes (names derived from every listed filter incl. the parent level of '#') and the deliveries must equal the model of granted filters. Concurrent variant: the porcupine-checked subscribe/unsubscribe/publish histories of C01 (a publish whose call follows the SUBACK's return must be delivered, one whose call follows the UNSUBACK's return must not). Simultaneous requests: 4..13 connections SUBSCRIBE at the same moment to filters on one tree node (same filter, '+' and '#' siblings), 20..39 rounds per case; every SUBACK must arrive, a QoS 1 publication accepted afterwards must reach each of them exactly once before its next PINGRESP; then all UNSUBSCRIBE at the same moment and the next publication must reach none. distinct = (filter kind, requested QoS, server max, request size bucket).",
-		Quick:          []batchSpec{{Test: "TestC07", N: 8, Timeout: 15 * m}, {Test: "TestC01Conc", N: 2, Timeout: 15 * m}, {Test: "TestC07Conc", N: 4, Timeout: 15 * m}},
-		Thorough:       []batchSpec{{Test: "TestC07", N: 16, Timeout: 60 * m}, {Test: "TestC01Conc", N: 8, Timeout: 60 * m}, {Test: "TestC07Conc", N: 8, Timeout: 60 * m}},
+			"Afterwards a second client publishes probes (names derived from every listed filter incl. the parent level of '#') and the deliveries must equal the model of granted filters. Concurrent variant: the porcupine-checked subscribe/unsubscribe/publish histories of C01 (a publish whose call follows the SUBACK's return must be delivered, one whose call follows the UNSUBACK's return must not). Simultaneous requests: 4..13 connections SUBSCRIBE at the same moment to filters on one tree node (same filter, '+' and '#' siblings), 20..39 rounds per case; every SUBACK must arrive, a QoS 1 publication accepted afterwards must reach each of them exactly once before its next PINGRESP; then all UNSUBSCRIBE at the same moment and the next publication must reach none. Resume (real time): a session of 2000..40000 filters is resumed and an UNSUBSCRIBE for 50..199 stored filters plus a SUBSCRIBE raising 20..79 others to QoS 1 are written right behind the CONNECT; after both acknowledgements publications must reach none of the former and all of the latter at QoS 1. distinct = (filter kind, requested QoS, server max, request size bucket).",
+		Quick:          []batchSpec{{Test: "TestC07", N: 8, Timeout: 15 * m}, {Test: "TestC01Conc", N: 2, Timeout: 15 * m}, {Test: "TestC07Conc", N: 4, Timeout: 15 * m}, {Test: "TestC07Resume", N: 4, Timeout: 15 * m}},
+		Thorough:       []batchSpec{{Test: "TestC07", N: 16, Timeout: 60 * m}, {Test: "TestC01Conc", N: 8, Timeout: 60 * m}, {Test: "TestC07Conc", N: 8, Timeout: 60 * m}, {Test: "TestC07Resume", N: 12, Timeout: 60 * m}},
 		EvalStats:      []string{"c07.subscribes", "c07.unsubscribes"},
-		Floors:         map[string]int64{"c07.scenarios": 2000, "c07.subscribes": 5000, "c07.unsubscribes": 5000, "c07.probes": 100000, "c07.conc_cases": 14, "c07.conc_rounds": 300, "classes": 150},
+		Floors:         map[string]int64{"c07.scenarios": 2000, "c07.subscribes": 5000, "c07.unsubscribes": 5000, "c07.probes": 100000, "c07.conc_cases": 14, "c07.conc_rounds": 300, "c07.resume_cases": 10, "classes": 150},
 		FloorsThorough: map[string]int64{"c07.scenarios": 70000, "classes": 150},
 		Assumptions:    []string{"quiescence by synctest.Wait()", "a '$'-prefixed filter may be granted or refused (0x80)"},
 	},
